@@ -99,6 +99,8 @@ def ro_statics_pass(chk, scripts):
     syms = so_symbols(so)
     found = {}
     nrun = 0
+    if not hasattr(chk, 'ro_crashes'):
+        chk.ro_crashes = []
     for sc in scripts:
         rc, out, err = vlib.sh([exe], input=('\n'.join(sc) + '\nend\n').encode(), timeout=300)
         nrun += 1
@@ -106,7 +108,10 @@ def ro_statics_pass(chk, scripts):
         if 'X PROTECTED' not in out:
             raise vlib.BuildError('c18_rostatics did not protect the library data: %s' % (out + err)[-300:])
         if rc not in (0, 65) and 'X STATIC-WRITE' not in out:
-            raise vlib.BuildError('c18_rostatics failed (rc %d): %s' % (rc, (out + err)[-400:]))
+            # a crash of the single-threaded run says nothing about statics; it must not hide what the thread sets found
+            # on a broken tree: judged by the caller (build error only if nothing else was found)
+            chk.ro_crashes.append('c18_rostatics failed (rc %d): %s' % (rc, (out + err)[-400:]))
+            continue
         for l in out.split('\n'):
             if l.startswith('R c2mt '):
                 chk.dist('ro_corpus_units', l.split()[-1])
@@ -379,6 +384,10 @@ def run(chk):
                                                  'a library function stored to the process-wide static object %s (in %s)' % (
                                                      obj, detail['written_by'])))
     chk.cov['ro_statics_scripts'] = len(ro_scripts)
+    if getattr(chk, 'ro_crashes', None):
+        if not found:
+            raise vlib.BuildError(chk.ro_crashes[0])
+        chk.notes.append('read-only-statics pass: %d script(s) crashed (not judged here): %s' % (len(chk.ro_crashes), chk.ro_crashes[0][-200:]))
     chk.cov['rule'] = ('each case is either a set of per-thread API scripts run twice by harness/c18_threads.c under ThreadSanitizer: all '
                       'threads in parallel (each with its own context, scripts repeated so that creation/destruction overlap) '
                       'and one after another; TSan reports, hangs and per-thread result differences are failures; or one API script '
